@@ -1050,7 +1050,10 @@ func NewModifiedFeaturesWithCopies(new Feature, features []b6.Feature, byID *Fea
 			m.features = append(m.features, existing)
 			m.tokens = append(m.tokens, TokensForFeature(f))
 			m.copied = append(m.copied, false)
-		} else {
+		} else if f.FeatureID() != new.FeatureID() {
+			// (A feature can be among its own references, via a cycle of
+			// relations or collections: in that case, new replaces it,
+			// rather than the version from the base being copied.)
 			copy := NewFeatureFromWorld(f)
 			byID.AddFeature(copy)
 			m.features = append(m.features, copy)
